@@ -51,7 +51,20 @@ inline void print_tape(verif::SpyStack& st) {
 // Jacobian of the dependents (rows) w.r.t. the independents (columns), row-major, as hex
 inline void print_jacobian(verif::SpyStack& st, int m, int n) {
   std::vector<double> J(m * n > 0 ? m * n : 1, 0.0);
-  st.jacobian(J.data(), n, 1);       // dep_offset = n, indep_offset = 1: row-major m x n
+  // As the property says: seed one output with 1, run the ADJOINT PASS, read the gradient of every input
+  // (row i of the Jacobian); Stack::jacobian() itself is the subject of C02.
+  for (int i = 0; i < m; ++i) {
+    st.clear_gradients();
+    double one = 1.0;
+    adept::uIndex di = st.dep_idx(i);
+    st.set_gradients(di, di + 1, &one);
+    st.compute_adjoint();
+    for (int j = 0; j < n; ++j) {
+      adept::uIndex xj = st.indep_idx(j);
+      st.get_gradients(xj, xj + 1, &J[i * n + j]);
+    }
+  }
+  st.clear_gradients();
   std::cout << "J " << m << " " << n << " :";
   for (int i = 0; i < m * n; ++i) std::cout << " " << hex(J[i]);
   std::cout << "\n";
